@@ -187,6 +187,20 @@ func (r *Report) Finish() int {
 			knownByKey[k.Key] = k
 		}
 	}
+	// thorough tier: result of the checker's self-test for this property (written by run.sh just before)
+	if b, err := os.ReadFile(filepath.Join(verifDir(), "evidence", r.Property+".selftest.json")); err == nil {
+		var st struct {
+			Mutants  int `json:"mutants"`
+			Failures int `json:"failures"`
+			Results  []map[string]any
+		}
+		if json.Unmarshal(b, &st) == nil {
+			r.Analysed["selftest"] = map[string]any{"mutants_applied_to_scratch_copies": st.Mutants, "failures": st.Failures, "results": st.Results}
+			if st.Failures > 0 {
+				r.Fatal("checker self-test: %d of %d mutants / silent edits of this property were not handled as expected (see evidence/%s.selftest.log)", st.Failures, st.Mutants, r.Property)
+			}
+		}
+	}
 	for _, m := range r.mins {
 		if m.Found < m.Expected {
 			r.Fatal("rule %s matched %d instances, fewer than the %d confirmed by hand: the rule has lost its anchors", m.Rule, m.Found, m.Expected)
